@@ -256,11 +256,11 @@ def gen_args(rng, tier):
 
 
 def gen_int(rng, tier):
-    hand = ["0", "00", "-0", "+5", " 5 ", "5_0", "_5", "5_", "5__0", "", " ", "-", "+", "+-5", "٣", "1٣", "²", " 5", "5 ", "1 2", "0x1", "1e3", "1.0", "-_1", "+_1", "1_٣", "１２"]
+    hand = ["\x1c1", "1\x1f", "\x0b1", "\x0c1", "\x851", "\xa01", "\u20281", "1\x1c\xa0", "0", "00", "-0", "+5", " 5 ", "5_0", "_5", "5_", "5__0", "", " ", "-", "+", "+-5", "٣", "1٣", "²", " 5", "5 ", "1 2", "0x1", "1e3", "1.0", "-_1", "+_1", "1_٣", "１２"]
     for s in hand:
         yield {"s": s}
     n = 1500 if tier == "quick" else 30000
-    a = "0123456789+-_ \t٣²１x"
+    a = "0123456789+-_ \t٣²１x\x1c\x1f\xa0\x0b"
     for _ in range(n):
         yield {"s": "".join(rng.choice(a) for _ in range(rng.randint(0, 6)))}
 
@@ -455,6 +455,17 @@ def gen_cmp(rng, tier):
     yield {"kind": "datetime", "a": [2010, 9, 20, 12, 0, 0, 0, 0], "b": [2010, 9, 20, 13, 0, 0, 0, 60]}
     yield {"kind": "time", "a": [12, 0, 0, 0, 0], "b": [13, 0, 0, 0, 60]}
     yield {"kind": "time", "a": [24, 0, 0, 0, None], "b": [0, 0, 0, 0, None]}
+    # year boundaries (every change of the number of year digits, the era change, leap centuries)
+    for y in (-10000, -1000, -401, -400, -101, -100, -5, -4, -1, 0, 1, 3, 4, 99, 100, 399, 400, 999, 1000, 1899, 1900, 1999, 2000, 9998, 9999, 10000, 99999):
+        for h1, h2, o1, o2 in ((23, 0, None, None), (24, 0, None, None), (12, 0, 0, 0), (23, 1, -60, 60), (0, 23, 840, -840)):
+            a = [y, 12, 31, h1, 0 if h1 == 24 else 30, 0, 0, o1]
+            b = [y + 1, 1, 1, h2, 0, 0, 0, o2]
+            yield {"kind": "datetime", "a": a, "b": b}
+            yield {"kind": "datetime", "a": b, "b": a}
+        for m, d in ((2, 28), (2, 29), (3, 1), (12, 31), (1, 1)):
+            if d <= D.monthlen(y, m):
+                a = [y, m, d, 12, 0, 0, 0, None]
+                yield {"kind": "datetime", "a": a, "b": near(rng, a, "datetime")}
     n = 1500 if tier == "quick" else 40000
     for kind in ("time", "datetime"):
         for _ in range(n):
